@@ -5,6 +5,8 @@
 import ast, sys, importlib.abc, importlib.util, importlib.machinery, os, time, types, builtins, re as _re
 import z3
 
+sys.setrecursionlimit(max(sys.getrecursionlimit(), 60000))   # the regex matcher recurses per repetition (very long inputs)
+
 REPO = os.environ.get('SYMX_REPO', '/repo')
 
 # ----------------------------------------------------------------------------
@@ -852,9 +854,9 @@ class SStr:
                 continue
             if is_ascii(c):
                 if which == 'upper':
-                    out.append(z3.If(z3.And(c >= 97, c <= 122), c - 32, c))
+                    out.append(memo(('aup', c.get_id()), c, lambda: z3.If(z3.And(c >= 97, c <= 122), c - 32, c)))
                 else:
-                    out.append(z3.If(z3.And(c >= 65, c <= 90), c + 32, c))
+                    out.append(memo(('alo', c.get_id()), c, lambda: z3.If(z3.And(c >= 65, c <= 90), c + 32, c)))
                 continue
             # multi-char expansion: fork (rare)
             if multi and xfork(z3.Or([c == k for k in multi]), 'case-expand'):
@@ -1105,6 +1107,9 @@ def _digit_value(c, base=10):
     return valid, val
 
 
+INT_MAX_STR_DIGITS = sys.get_int_max_str_digits() if hasattr(sys, "get_int_max_str_digits") else 1 << 60
+
+
 def m_int(x=0, base=10):
     if isinstance(x, SInt):
         return x
@@ -1126,7 +1131,10 @@ def m_int(x=0, base=10):
     if not (2 <= base <= 36):
         raise Unsupported('int base %r' % base)
     pairs = [digit_value(c, base) for c in x.chars]
+    limited = base not in (2, 4, 8, 16, 32)   # sys.get_int_max_str_digits() == 4300 applies to the other bases
     if fork(z3.And([p[0] for p in pairs])):
+        if limited and n > INT_MAX_STR_DIGITS:
+            raise ValueError('Exceeds the limit (%d digits) for integer string conversion' % INT_MAX_STR_DIGITS)
         acc = pairs[0][1]
         for _, e in pairs[1:]:
             acc = acc * base + e
@@ -1151,6 +1159,8 @@ def m_int(x=0, base=10):
     m = _re.fullmatch(r's*([+-]?)(d(?:_?d)*)s*', shape)
     if not m:
         raise ValueError('invalid literal for int()')
+    if limited and shape.count('d') > INT_MAX_STR_DIGITS:
+        raise ValueError('Exceeds the limit (%d digits) for integer string conversion' % INT_MAX_STR_DIGITS)
     acc = z3.IntVal(0)
     for k, cl in enumerate(classes):
         if cl == 'd':
@@ -1500,7 +1510,11 @@ def contains(container, item):
                 return True
             if len(item) == 1:
                 c = item.chars[0]
-                return SBool(z3.Or([c == ord(a) for a in set(container)])) if container else False
+                if not container:
+                    return False
+                if isinstance(c, int):
+                    return chr(c) in container
+                return SBool(memo(('in', c.get_id(), container), c, lambda: z3.Or([c == ord(a) for a in sorted(set(container))])))
             n = len(item)
             return SBool(z3.Or([item._eqz(container[i:i + n]) for i in range(len(container) - n + 1)])) if len(container) >= n else False
         return item in container
@@ -1648,10 +1662,21 @@ def _lazysel3(col, idx):
     raise Unsupported('3-level LazySel')
 
 
+_CHARMAPS = {}
+
+
+def _is_charmap(d):
+    e = _CHARMAPS.get(id(d))
+    if e is None or e[0] is not d or e[1] != len(d):
+        e = (d, len(d), all(isinstance(x, str) and len(x) == 1 for x in d) and all(isinstance(v, str) and len(v) == 1 for v in d.values()))
+        _CHARMAPS[id(d)] = e
+    return e[2]
+
+
 def dict_get(d, k, default=None):
     k = force(k)
     if isinstance(k, SStr):
-        if len(k) == 1 and all(isinstance(x, str) and len(x) == 1 for x in d) and all(isinstance(v, str) and len(v) == 1 for v in d.values()) and (isinstance(default, SStr) and len(default) == 1):
+        if len(k) == 1 and (isinstance(default, SStr) and len(default) == 1) and _is_charmap(d):
             # char map: ite chain, no fork
             c = k.chars[0]
             asc = is_ascii(c)
@@ -1709,6 +1734,29 @@ class SPattern:
         n = len(chars)
         starts = [0] if mode in ('match', 'fullmatch') else list(range(n + 1))
         ids = [None if isinstance(c, int) else c.get_id() for c in chars]
+        if n > 64 and mode != 'search':
+            # very long subjects: `^[class]{lo,hi}\Z` is decided per distinct character (the general matcher enumerates
+            # every end position of the repetition, which is quadratic)
+            tree = list(self.tree)
+            if tree and tree[0] == (sre_c.AT, sre_c.AT_BEGINNING):
+                tree = tree[1:]
+            anchored = mode == 'fullmatch'
+            if tree and tree[-1] == (sre_c.AT, sre_c.AT_END_STRING):
+                tree, anchored = tree[:-1], True
+            if anchored and len(tree) == 1 and tree[0][0] is sre_c.MAX_REPEAT and len(tree[0][1][2]) == 1 and tree[0][1][2][0][0] is sre_c.IN:
+                lo, hi, sub = tree[0][1]
+                if not (lo <= n <= hi):
+                    return None
+                seen, conds = set(), []
+                for c, i in zip(chars, ids):
+                    key = c if i is None else i
+                    if key in seen:
+                        continue
+                    seen.add(key)
+                    conds.append(class_cond(c, sub[0][1], flags=self.tree.state.flags))
+                if fork(z3.And(conds) if conds else z3.BoolVal(True)):
+                    return SMatch(s, 0, n, {}, self)
+                return None
 
         def akey():
             # the conditions depend on the per-path ASCII status of each character (ASCII-first tables)
